@@ -110,6 +110,8 @@ type VC struct {
 	unfoldDepth  int
 	unfolded     map[string]bool
 	mathInts     int
+	heapPureMemo map[*FuncInfo]bool
+	afterHavoc   func(*State)
 }
 
 func newVC(prog *Prog, fn *FuncInfo, mode Mode) *VC {
@@ -120,7 +122,7 @@ func newVC(prog *Prog, fn *FuncInfo, mode Mode) *VC {
 		decls: map[string]string{}, dtByName: map[string]*Sort{}, sortMemo: map[string]*Sort{},
 		oblNames: map[string]int{}, assumptions: map[string]bool{}, havocked: map[string]bool{},
 		callees: map[string]bool{}, inlined: map[string]bool{}, specAxioms: map[string]bool{},
-		pendingSpecs: map[*FuncInfo]bool{}, doneSpecs: map[*FuncInfo]bool{}, defs: map[string]*Term{}, rowCopies: map[string]rowCopyDef{}, specCache: map[string][]*Term{}, wrapFns: map[string]bool{}, unfolded: map[string]bool{}, defSymMemo: map[string]map[string]bool{}, boundMemo: map[string]interval{}, varBounds: map[string]interval{},
+		pendingSpecs: map[*FuncInfo]bool{}, doneSpecs: map[*FuncInfo]bool{}, defs: map[string]*Term{}, rowCopies: map[string]rowCopyDef{}, specCache: map[string][]*Term{}, wrapFns: map[string]bool{}, unfolded: map[string]bool{}, heapPureMemo: map[*FuncInfo]bool{}, defSymMemo: map[string]map[string]bool{}, boundMemo: map[string]interval{}, varBounds: map[string]interval{},
 	}
 }
 
